@@ -284,6 +284,10 @@ def build(j, fns):
             return glom.Ref(j['name'], B(j['sub']))
         return glom.Ref(j['name'])
     if k == 'vars':
+        if j.get('base'):
+            # positional mapping + keyword defaults; the mapping object is kept by the spec
+            base = fns.setdefault(('vars-base', json_key(j['base'])), {n: dec(v, fns) for n, v in j['base']})
+            return glom.Vars(base, **{n: dec(v, fns) for n, v in j['defaults']})
         return glom.Vars(**{n: dec(v, fns) for n, v in j['defaults']})
     if k == 'let':
         return glom.Let(**OrderedDict((n, B(v)) for n, v in j['bs']))
@@ -316,6 +320,11 @@ def build(j, fns):
     raise ValueError('unknown spec kind ' + k)
 
 
+def json_key(j):
+    import json
+    return json.dumps(j, sort_keys=True)
+
+
 def exc_class(name):
     import builtins
     import glom
@@ -329,12 +338,16 @@ def exc_name(e):
     return type(e).__name__
 
 
-def run_glom(case):
-    """one real glom() call; returns impl observation fields"""
+def run_glom(case, built=None):
+    """one real glom() call; returns impl observation fields.  `built` = (spec, target) objects to
+    re-use (a second call on the very same spec object)"""
     import glom
     fns = {}
-    spec = build(case['spec'], fns)
-    target = dec(case['target'], fns)
+    if built is None:
+        spec = build(case['spec'], fns)
+        target = dec(case['target'], fns)
+    else:
+        spec, target = built
     kw = {}
     caller_scope = None
     if case.get('scope'):
@@ -357,4 +370,5 @@ def run_glom(case):
     out['impl'] = impl
     out['impl_log'] = log
     out['impl_scope_untouched'] = (before == caller_scope) if before is not None else True
+    out['_built'] = (spec, target)
     return out
